@@ -24,7 +24,9 @@ def main():
             n += 1
             rel = abs(sym - real) / max(abs(real), 1e-30)
             max_rel = max(max_rel, rel)
-            if rel > 2e-5 or spread > 2e-5:
+            # (rms_norm computes its statistics in float32 whatever the input dtype: elementwise ratios on
+            # small entries carry ~1e-5 of noise; a modelling mistake shows up as an O(1) difference)
+            if rel > 2e-5 or spread > 5e-4:
                 mism.append(f"{c['op']}{c['cfg']} {name}: symbolic {sym!r} vs measured {real!r} (spread {spread:.2g}) witness {c['witness']}"[:400])
     print(json.dumps({"compared": n, "mismatches": mism[:10], "max_rel": max_rel}))
 
